@@ -735,7 +735,9 @@ def features(c, out):
 # ----------------------------------------------------------------------------- generators
 NAMES = ["sample_data", "P", "My Problem", "x.y-z_1", "'Quoted'", "UPPER lower", "tab\tname", " lead", "trail ", "@data", "#hash", "a:b"]
 COMMENTS = [None, "short comment", "A longer comment that has to be wrapped by textwrap because it is well over seventy characters long, "
-            "and then some more text so that there are three lines. @data @problemName trap", "@data", "x" * 150, "  padded  ", "multi\nline\ncomment"]
+            "and then some more text so that there are three lines. @data @problemName trap", "@data", "x" * 150, "  padded  ", "multi\nline\ncomment",
+            # wrapped so that a continuation line begins with a tag (it must still be written as a comment line)
+            "y" * 66 + " @data and more words to follow", "z" * 60 + " filler @problemName again " + "w" * 40 + " @classLabel true q"]
 LABEL_POOL = ["a", "B", "1", "2", "Yes", "NO", "class_1", "x-y", "3.5", "label", "A,b", "'q'", "-1", "true", "FALSE", "@data", "#c"]
 
 
